@@ -76,6 +76,10 @@ func Reachable(v reflect.Value, f func(reflect.Value)) {
 
 // Fill sets v (a settable value) to arbitrary non-zero content.  depth bounds
 // nesting; tag makes strings distinguishable.
+// SliceLen is the number of elements Fill puts into every slice (default 1). Release paths that
+// treat long slices differently from short ones are only exercised with long ones.
+var SliceLen = 1
+
 func Fill(v reflect.Value, tag string, depth int) {
 	if !v.CanSet() {
 		return
@@ -112,9 +116,20 @@ func Fill(v reflect.Value, tag string, depth int) {
 			Fill(v.Field(i), tag+"."+t.Field(i).Name, depth-1)
 		}
 	case reflect.Slice:
-		e := reflect.New(t.Elem()).Elem()
-		Fill(e, tag, depth-1)
-		v.Set(reflect.Append(reflect.MakeSlice(t, 0, 2), e))
+		n := SliceLen
+		if n < 1 {
+			n = 1
+		}
+		sl := reflect.MakeSlice(t, 0, n+1)
+		saved := SliceLen
+		SliceLen = 1 // only the outermost slice is long: nested ones would multiply
+		for i := 0; i < n; i++ {
+			e := reflect.New(t.Elem()).Elem()
+			Fill(e, tag, depth-1)
+			sl = reflect.Append(sl, e)
+		}
+		SliceLen = saved
+		v.Set(sl)
 	case reflect.Map:
 		m := reflect.MakeMap(t)
 		k := reflect.New(t.Key()).Elem()
